@@ -70,7 +70,10 @@ def truth(t, mu_x, S_x, y, Dx):
             X, W = panel_nodes(mu_x[0], math.sqrt(S_x[0, 0]), kinks, order=order, width=9.0)
             vals.append(float(W @ f(X)))
         return vals[1], abs(vals[0] - vals[1]) <= 1e-9 * (1 + abs(vals[1]))
-    v, ok = orc.gh_expect(f, mu_x, S_x, orders=(36, 50), rel=1e-9)
+    try:
+        v, ok = orc.gh_expect(f, mu_x, S_x, orders=(36, 50), rel=1e-9)
+    except np.linalg.LinAlgError:
+        return float("nan"), False  # exp link overflowing at far nodes: the oracle cannot be formed
     return float(v), ok
 
 
@@ -178,13 +181,23 @@ def run_cell(cell, rec, seed):
             if eps == 0.0:
                 rec.close("gap = 0 at zero weights", gap, np.zeros(N), ns=10.0 * np.ones(N),
                           detail=d, mech=f"gap-nonzero-at-zero-weights:{ak}:{regime}")
-        # tightness: quadratic decay of the gap in the homoscedastic limit
-        for eps in (0.1, 0.01):
-            e2 = eps / 10.0
-            if eps in gaps and e2 in gaps:
-                d = dict(info, N=N, eps=eps, gap_eps=gaps[eps], gap_eps_over_10=gaps[e2])
-                rec.leq(f"gap({e2}) <= gap({eps})/30", gaps[e2], np.maximum(gaps[eps], 0.0) / 30.0,
-                        allow=2e-7, detail=d, mech=f"gap-not-quadratic:{ak}:{regime}")
+        # tightness: quadratic decay of the gap in the homoscedastic limit. The property's
+        # criterion gap(eps/10) <= gap(eps)/30 is applied with eps' = 10 eps and, so that an
+        # *optimised* (smaller) gap at the larger scale is never held against the library, also
+        # with every larger explored scale eps': gap(e) <= (100/30) gap(eps') (e/eps')^2. A gap
+        # that decays linearly or not at all fails against every eps'.
+        for e2 in (0.01, 0.001):
+            if e2 not in gaps:
+                continue
+            larger = [e for e in gaps if e > e2 * 5]
+            if not larger:
+                continue
+            bound = np.max(np.stack([np.maximum(gaps[e], 0.0) * (e2 / e) ** 2 * (100.0 / 30.0)
+                                     for e in larger]), axis=0)
+            d = dict(info, N=N, eps=e2, gap=gaps[e2],
+                     gaps_at_larger_scales={str(e): gaps[e] for e in larger})
+            rec.leq(f"gap({e2}) decays quadratically", gaps[e2], bound, allow=2e-7, detail=d,
+                    mech=f"gap-not-quadratic:{ak}:{regime}")
         if rep == 0 and gaps:
             rec.sample({"case": info, "N": N, "gaps_by_weight_scale": {str(k): v for k, v in
                                                                          gaps.items()}})
